@@ -251,7 +251,7 @@ pub fn to_operator(o: Op) -> Operator {
 // ---------------------------------------------------------------------------------------
 // running the real writer
 
-fn apply(w: &mut TextWriter<Vec<u8>>, c: &Call) -> Result<(), jomini::Error> {
+fn apply<W: std::io::Write>(w: &mut TextWriter<W>, c: &Call) -> Result<(), jomini::Error> {
     match c {
         Call::Start => w.write_start(),
         Call::ObjectStart => w.write_object_start(),
@@ -373,6 +373,43 @@ pub fn exec(w: &[&str], obs: &mut Obs) -> Option<String> {
             s.push(' ');
             s.push_str(&r.st);
             Some(s)
+        }
+        // implementation-only: the same calls into a writer that takes <cap> bytes and then fails.  No call may
+        // panic; what reached the writer is a prefix of the full output; every call up to the first one that needs
+        // more room returns what it returns with an unlimited writer, that one returns Err(io); when the output
+        // fits, nothing fails.
+        ["x-wcallsw", c, f, cap_s, rest @ ..] => {
+            let ic: u8 = c.parse().ok()?;
+            let fac: u8 = f.parse().ok()?;
+            let cap: usize = cap_s.parse().ok()?;
+            let calls: Vec<Call> = rest.iter().map(|t| parse_call(t)).collect::<Option<Vec<_>>>()?;
+            let case = w.join(" ");
+            let full = run_real(ic, fac, &calls);
+            let mut sink = crate::props::c14::FailingWriter { cap, got: vec![] };
+            let mut first_io: Option<usize> = None;
+            {
+                let mut wr = TextWriterBuilder::new().indent_char(ic).indent_factor(fac).from_writer(&mut sink);
+                for (i, call) in calls.iter().enumerate() {
+                    let r = apply(&mut wr, call);
+                    let io = matches!(r.as_ref().err().map(|e| e.kind()), Some(jomini::ErrorKind::Io(_)));
+                    if io && first_io.is_none() { first_io = Some(i); }
+                    if first_io.is_none() {
+                        // before the writer is full every call behaves as with an unlimited writer
+                        let same = match (&r, &full.rows[i]) { (Ok(()), Ok(_)) => true, (Err(_), Err(_)) => true, _ => false };
+                        if !same { obs.violation("failing-writer-call-result", &case, &format!("call {}: {:?} vs unlimited {:?}", i, r.is_ok(), full.rows[i].is_ok())); }
+                    }
+                }
+                // `inner()` hands out the sink without consuming the writer
+                if wr.inner().got.len() > cap { obs.violation("failing-writer-prefix", &case, "the sink holds more than its capacity"); }
+            }
+            if !full.out.starts_with(&sink.got) || sink.got.len() != cap.min(full.out.len()) {
+                obs.violation("failing-writer-prefix", &case, &format!("writer got {} full output {}", hex(&sink.got), hex(&full.out)));
+            }
+            if first_io.is_some() != (cap < full.out.len()) {
+                obs.violation("failing-writer-result", &case, &format!("cap {} output length {} first io error at call {:?}", cap, full.out.len(), first_io));
+            }
+            obs.count(if first_io.is_some() { "wcallsw:err" } else { "wcallsw:ok" });
+            Some(match first_io { Some(i) => format!("err:{}", i), None => "ok".to_string() })
         }
         _ => None,
     }
@@ -1207,6 +1244,31 @@ pub fn gen_c15(g: &mut Gen) {
         emit(g, ic, fac, &calls);
     }
     g.count("mixed-mode");
+
+    // 7. the same kinds of call lists into a writer that fails after n bytes (implementation-only)
+    let fixed: Vec<Vec<Call>> = vec![
+        vec![Call::Unquoted(b"a".to_vec()), Call::Quoted(b"b \" c".to_vec()), Call::Unquoted(b"d".to_vec()), Call::ObjectStart, Call::Unquoted(b"k".to_vec()), Call::I64(-42), Call::End,
+             Call::Unquoted(b"c".to_vec()), Call::Rgb(1, 2, 3, Some(4)), Call::Unquoted(b"l".to_vec()), Call::ArrayStart, Call::Bool(true), Call::F64(1.5f64.to_bits()), Call::Date('s', 1444, 11, 11, 0), Call::End],
+        vec![Call::Unquoted(b"h".to_vec()), Call::Header(b"rgb".to_vec()), Call::ArrayStart, Call::U32(7), Call::End, Call::Unquoted(b"m".to_vec()), Call::ArrayStart, Call::I32(1), Call::Mixed,
+             Call::Unquoted(b"x".to_vec()), Call::Operator(Op::Ge), Call::U64(9), Call::End, Call::Binary(BinT::Token(0x2d82)), Call::Binary(BinT::F32(1.0f32.to_le_bytes()))],
+    ];
+    for calls in &fixed {
+        let len = run_real(b' ', 2, calls).out.len();
+        let tail: String = calls.iter().map(call_token).collect::<Vec<_>>().join(" ");
+        for cap in 0..=len + 1 { g.emit(format!("x-wcallsw 32 2 {} {}", cap, tail)); }
+    }
+    let n = g.budget(400, 8_000);
+    for _ in 0..n {
+        let cfg = DocCfg { mixed: false, ghosts: false, variables: false, max_depth: 1 + g.rng.below(3), ..DocCfg::text_full() };
+        let doc = docgen::gen_doc(&mut g.rng, &cfg);
+        let calls = doc_calls(&mut g.rng, &doc, &Flavour { bt_pct: 30, explicit_eq_pct: 50 });
+        if calls.is_empty() || calls.len() > 60 { continue; }
+        let len = run_real(b' ', 2, &calls).out.len();
+        let cap = g.rng.below(len + 3);
+        let tail: String = calls.iter().map(call_token).collect::<Vec<_>>().join(" ");
+        g.emit(format!("x-wcallsw 32 2 {} {}", cap, tail));
+    }
+    g.count("failing-writer");
 }
 
 pub fn gen(g: &mut Gen) { gen_c15(g) }
